@@ -1141,6 +1141,14 @@ def remove_duplicate_functions(source: str, preserve: Collection[str]) -> str:
             preserved_nodes = {replacement}
 
         for node in funcdefs - preserved_nodes:
+            # Neither the definition nor a use that would be redirected may sit on an ignored line
+            if any(
+                core.has_ignore_comment(source, core.get_charnos(mention, source))
+                for mention in (node, *mentions[node.name])
+                if hasattr(mention, "lineno")
+            ):
+                continue
+
             # The names must only ever mean these functions: all their uses are renamed.
             if replacement.name not in unavailable_names and all(
                 mention in funcdefs
